@@ -18,7 +18,7 @@ typedef struct dtd_task_desc {
     int delay;              /* simulated ns of body stretch */
     int priority;
     int inserter;           /* -1: inserted by the main thread; >=0: inserted from the body of that task */
-    int is_flush;           /* 1: flush of tile[0]; 2: flush_all */
+    int is_flush;           /* 1: flush of tile[0]; 2: flush_all; 3: parsec_taskpool_wait */
 } dtd_task_desc_t;
 
 typedef struct dtd_shared {
@@ -37,5 +37,20 @@ typedef struct dtd_rank_arg { dtd_shared_t *sh; int rank; } dtd_rank_arg_t;
 
 /* harness callbacks (shared, uninstrumented) */
 int  dtdh_body(int rank, int task_id, int nparams, int64_t **ptrs);
+/* dtdh_event kinds (a, b):
+ *   1  insertion of task a begins            2  insertion of task a returned
+ *   3  a mid-program parsec_taskpool_wait returned (a = plan index)
+ *   4  the final parsec_taskpool_wait returned     5  parsec_context_wait returned
+ *   6  the body of task a is about to run; b = address of the runtime's task object (never hashed)
+ *   7  owner copy right after a parsec_taskpool_wait returned: a = (first plan index NOT before that wait) << 8 | tile,
+ *      b = address of the tile's elements on this (owning) rank; sent for every locally owned tile BEFORE event 3 / 4
+ *   8  insertion of the flush / flush_all at plan index a begins     10  ... returned
+ *   9  the body of task a was started from INSIDE a nested insertion (tasks inserting tasks: the nested
+ *      parsec_dtd_insert_task hit a window stop and executes other tasks before returning)
+ *  11  a task of the DTD taskpool enters prepare_input (b = address of its task object, never hashed; PINS callback)
+ *  12  a task of the DTD taskpool starts executing (b likewise; covers the runtime's own fake / flush tasks too)
+ *  99  parsec_init failed
+ * (the driver is also linked by tools/realrun, whose dtdh_event ignores what it does not know: new observations are
+ *  new kinds of this callback, and dtd_shared_t keeps its layout: the findings/NAME.shared.bin files are dumps of it) */
 void dtdh_event(int rank, int kind, long a, long b);
 #endif
